@@ -282,7 +282,8 @@ pub enum ScanItem {
 
 struct StorageResolver<'a, B, OC, SC, L> {
     storage: &'a Storage<B, OC, SC, L>,
-    chain: Mutex<Vec<PlainRef>>,
+    // the loads in progress, per thread (a resolver may be shared between threads)
+    chain: Mutex<Vec<(std::thread::ThreadId, PlainRef)>>,
 }
 impl<'a, B, OC, SC, L> StorageResolver<'a, B, OC, SC, L> {
     pub fn new(storage: &'a Storage<B, OC, SC, L>) -> Self {
@@ -332,15 +333,16 @@ where
 
     fn get<T: Object+DataSize>(&self, r: Ref<T>) -> Result<RcRef<T>> {
         let key = r.get_inner();
+        let thread = std::thread::current().id();
         self.storage.log.log_get(key);
         
         {
             debug!("get {key:?} as {}", std::any::type_name::<T>());
             let mut chain = self.chain.lock().unwrap();
-            if chain.contains(&key) {
+            if chain.contains(&(thread, key)) {
                 bail!("Recursive reference");
             }
-            chain.push(key);
+            chain.push((thread, key));
         }
         #[cfg(feature = "verif_hooks")]
         crate::verif::yield_point(crate::verif::SITE_GET_AFTER_PUSH, key.id);
@@ -348,7 +350,10 @@ where
             #[cfg(feature = "verif_hooks")]
             crate::verif::yield_point(crate::verif::SITE_GET_BEFORE_POP, key.id);
             let mut chain = self.chain.lock().unwrap();
-            assert_eq!(chain.pop(), Some(key));
+            // entries of other threads may have been pushed after ours
+            if let Some(pos) = chain.iter().rposition(|&entry| entry == (thread, key)) {
+                chain.remove(pos);
+            }
         });
         
         #[cfg(feature = "verif_hooks")]
